@@ -28,9 +28,9 @@ from ...core._ext.types cimport \
 
 cdef extern from "src_numerics.c":
     double _vertex_current_flow_betweenness_fast(int N, double Is, double It,
-        float *admittance, float *R, int i)
+        double *admittance, double *R, int i)
     void _edge_current_flow_betweenness_fast(int N, double Is, double It,
-        float *admittance, float *R, float *ECFB)
+        double *admittance, double *R, float *ECFB)
 
 
 # geo_network =================================================================
@@ -614,25 +614,25 @@ def _calculate_euclidean_distance(
 
 
 def _vertex_current_flow_betweenness(int N, double Is, double It,
-    ndarray[FIELD_t, ndim=2] admittance, ndarray[FIELD_t, ndim=2] R,
+    ndarray[DFIELD_t, ndim=2] admittance, ndarray[DFIELD_t, ndim=2] R,
     int i):
 
     return _vertex_current_flow_betweenness_fast(N, Is, It,
-        <FIELD_t*> cnp.PyArray_DATA(admittance),
-        <FIELD_t*> cnp.PyArray_DATA(R), i)
+        <DFIELD_t*> cnp.PyArray_DATA(admittance),
+        <DFIELD_t*> cnp.PyArray_DATA(R), i)
 
 
 def _edge_current_flow_betweenness(int N, double Is, double It,
-    ndarray[FIELD_t, ndim=2] admittance,
-    ndarray[FIELD_t, ndim=2] R,):
+    ndarray[DFIELD_t, ndim=2] admittance,
+    ndarray[DFIELD_t, ndim=2] R,):
 
     # alloc output
     cdef ndarray[FIELD_t, ndim=2, mode='c'] ECFB = \
             np.zeros((N, N), dtype=FIELD)
 
     _edge_current_flow_betweenness_fast(N, Is, It,
-        <FIELD_t*> cnp.PyArray_DATA(admittance),
-        <FIELD_t*> cnp.PyArray_DATA(R),
+        <DFIELD_t*> cnp.PyArray_DATA(admittance),
+        <DFIELD_t*> cnp.PyArray_DATA(R),
         <FIELD_t*> cnp.PyArray_DATA(ECFB))
 
     return ECFB
